@@ -4,7 +4,7 @@
 ((sink.head[9] as usize) << 8 | sink.head[10] as usize) == groups  @ half_connection.rs:138
 // replay: cd /verif && ./check ALL --replay /verif/replays/ALL/o11_2_ack_emission_two_groups.rs
 //@replay harness=o11_2_ack_emission_two_groups
-// native replay: {"dev": {"outcome": "build-failed", "log": "   Compiling libc v0.2.189\n   Compiling zerocopy v0.8.57\n   Compiling cfg-if v1.0.4\n   Compiling md5 v0.7.0\n   Compiling getrandom v0.2.17\n   Compiling rand_core v0.6.4\n   Compiling ppv-lite86 v0.2.21\n   Compiling rand_chacha v0.3.1\n   Compiling rand v0.8.8\n   Compiling uflow v0.7.1 (/var/tmp/uflow-verif/ALL-quick.22829)\nerror[E0765]: unterminated double quote string\n   --> /var/tmp/uflow-verif/ALL-quick.22829/verif_harness/half_connection.rs:234:66\n    |\n234 |   ((sink.head[9] as usize) << 8 | sink.head[10] as usize) == groups\"\n    |  __________________________________________________________________^\n235 | | ///\n236 | | /// # Warning\n237 | | ///\n...   |\n261 | |\n    | |_^\n\nFor more information about this error, try `rustc --explain E0765`.\nerror: could not compile `uflow` (lib test) due to 1 previous error\n"}, "release": {"outcome": "build-failed", "log": "   Compiling libc v0.2.189\n   Compiling zerocopy v0.8.57\n   Compiling cfg-if v1.0.4\n   Compiling md5 v0.7.0\n   Compiling getrandom v0.2.17\n   Compiling rand_core v0.6.4\n   Compiling ppv-lite86 v0.2.21\n   Compiling rand_chacha v0.3.1\n   Compiling rand v0.8.8\n   Compiling uflow v0.7.1 (/var/tmp/uflow-verif/ALL-quick.22829)\nerror[E0765]: unterminated double quote string\n   --> /var/tmp/uflow-verif/ALL-quick.22829/verif_harness/half_connection.rs:234:66\n    |\n234 |   ((sink.head[9] as usize) << 8 | sink.head[10] as usize) == groups\"\n    |  __________________________________________________________________^\n235 | | ///\n236 | | /// # Warning\n237 | | ///\n...   |\n261 | |\n    | |_^\n\nFor more information about this error, try `rustc --explain E0765`.\nerror: could not compile `uflow` (lib test) due to 1 previous error\n"}}
+// native replay: {"dev": {"outcome": "build-failed", "log": "   Compiling libc v0.2.189\n   Compiling zerocopy v0.8.57\n   Compiling cfg-if v1.0.4\n   Compiling md5 v0.7.0\n   Compiling getrandom v0.2.17\n   Compiling rand_core v0.6.4\n   Compiling ppv-lite86 v0.2.21\n   Compiling rand_chacha v0.3.1\n   Compiling rand v0.8.8\n   Compiling uflow v0.7.1 (/var/tmp/uflow-verif/ALL-quick.4646)\nerror[E0765]: unterminated double quote string\n   --> /var/tmp/uflow-verif/ALL-quick.4646/verif_harness/half_connection.rs:234:66\n    |\n234 |   ((sink.head[9] as usize) << 8 | sink.head[10] as usize) == groups\"\n    |  __________________________________________________________________^\n235 | | ///\n236 | | /// # Warning\n237 | | ///\n...   |\n261 | |\n    | |_^\n\nFor more information about this error, try `rustc --explain E0765`.\nerror: could not compile `uflow` (lib test) due to 1 previous error\n"}, "release": {"outcome": "build-failed", "log": "   Compiling libc v0.2.189\n   Compiling zerocopy v0.8.57\n   Compiling cfg-if v1.0.4\n   Compiling md5 v0.7.0\n   Compiling getrandom v0.2.17\n   Compiling rand_core v0.6.4\n   Compiling ppv-lite86 v0.2.21\n   Compiling rand_chacha v0.3.1\n   Compiling rand v0.8.8\n   Compiling uflow v0.7.1 (/var/tmp/uflow-verif/ALL-quick.4646)\nerror[E0765]: unterminated double quote string\n   --> /var/tmp/uflow-verif/ALL-quick.4646/verif_harness/half_connection.rs:234:66\n    |\n234 |   ((sink.head[9] as usize) << 8 | sink.head[10] as usize) == groups\"\n    |  __________________________________________________________________^\n235 | | ///\n236 | | /// # Warning\n237 | | ///\n...   |\n261 | |\n    | |_^\n\nFor more information about this error, try `rustc --explain E0765`.\nerror: could not compile `uflow` (lib test) due to 1 previous error\n"}}
 
 /// Test generated for harness `half_connection::verif_half_connection::o11_2_ack_emission_two_groups` 
 ///
